@@ -51,6 +51,25 @@ struct SidecarEventHeader {
     event_type: String,
 }
 
+/// The head seq a reader of the messages+runs sidecar may use as its cut point.
+///
+/// An append writes the full sidecar line first and the messages+runs line after it. `head` is the
+/// full sidecar's last frame (`try_read_head_v1`, read BEFORE the messages+runs sidecar); when that
+/// frame is a message / run_ended frame the reader's view of the messages+runs sidecar (its last
+/// seq, `mr_last_seq`) does not hold yet, the append is still in flight and the thread that view
+/// shows ends one frame earlier.
+pub(crate) fn head_seq_seen_by_messages_runs_v1(
+    head: (u64, bool),
+    mr_last_seq: Option<u64>,
+) -> u64 {
+    let (seq, in_messages_runs) = head;
+    if in_messages_runs && mr_last_seq.is_none_or(|last| last < seq) {
+        seq.saturating_sub(1)
+    } else {
+        seq
+    }
+}
+
 /// Best-effort cache for fast continuity replays without scanning the global event log.
 ///
 /// The global `events.jsonl` remains the source of truth; this cache is rebuildable.
@@ -826,11 +845,35 @@ impl ContinuityStreamCache {
         Ok(Some(selected))
     }
 
+    /// Head of the full continuity sidecar: the seq of its last frame and whether that frame also
+    /// belongs in the messages+runs sidecar.
+    ///
+    /// Returns `Ok(None)` when the cache file doesn't exist.
+    pub(crate) fn try_read_head_v1(&self, continuity_id: &str) -> io::Result<Option<(u64, bool)>> {
+        let header = self
+            .try_read_last_header_for_sidecar_path(continuity_id, &self.path_for(continuity_id))?;
+        Ok(header.map(|header| {
+            let in_messages_runs = header.event_type == "continuity_message_appended"
+                || header.event_type == "continuity_run_ended";
+            (header.seq, in_messages_runs)
+        }))
+    }
+
     fn try_read_last_seq_for_sidecar_path(
         &self,
         continuity_id: &str,
         sidecar_path: &Path,
     ) -> io::Result<Option<u64>> {
+        Ok(self
+            .try_read_last_header_for_sidecar_path(continuity_id, sidecar_path)?
+            .map(|header| header.seq))
+    }
+
+    fn try_read_last_header_for_sidecar_path(
+        &self,
+        continuity_id: &str,
+        sidecar_path: &Path,
+    ) -> io::Result<Option<SidecarEventHeader>> {
         let mut file = match File::open(sidecar_path) {
             Ok(file) => file,
             Err(err) if err.kind() == io::ErrorKind::NotFound => return Ok(None),
@@ -850,7 +893,7 @@ impl ContinuityStreamCache {
                 None,
             )?;
             if let Some(header) = tail.headers.into_iter().next() {
-                return Ok(Some(header.seq));
+                return Ok(Some(header));
             }
 
             if tail.complete {
@@ -1103,17 +1146,18 @@ impl ContinuityStreamCache {
 
         // Determine the cut point `from_seq` as: (seq before the next message) or head_seq.
         // Use the full sidecar's head seq when available so `from_seq` matches the truth stream.
-        let full_head_seq = self.try_read_last_seq(continuity_id).ok().flatten();
-        let head_seq = full_head_seq
-            .or_else(|| {
-                self.try_read_last_seq_messages_runs_v1(continuity_id)
-                    .ok()
-                    .flatten()
-            })
-            .unwrap_or(anchor_seq);
+        let full_head = self.try_read_head_v1(continuity_id).ok().flatten();
+        let mr_head_seq = if full_head.is_none() {
+            self.try_read_last_seq_messages_runs_v1(continuity_id)
+                .ok()
+                .flatten()
+        } else {
+            None
+        };
 
         let mut next_message_seq: Option<u64> = None;
-        let mut boundary_pos: u64 = sidecar_file.metadata()?.len();
+        let mut last_seq_seen = anchor_seq;
+        let boundary_pos: u64;
         {
             let mut file = sidecar_file;
             file.seek(SeekFrom::Start(anchor_offset))?;
@@ -1125,6 +1169,8 @@ impl ContinuityStreamCache {
                 let mut buf = Vec::new();
                 let n = reader.read_until(b'\n', &mut buf)?;
                 if n == 0 {
+                    // The backward scan below covers exactly what this scan has seen.
+                    boundary_pos = cur_offset;
                     break;
                 }
 
@@ -1162,6 +1208,7 @@ impl ContinuityStreamCache {
                 if header.seq <= anchor_seq {
                     continue;
                 }
+                last_seq_seen = last_seq_seen.max(header.seq);
                 if header.event_type == "continuity_message_appended" {
                     next_message_seq = Some(header.seq);
                     boundary_pos = line_start;
@@ -1169,6 +1216,11 @@ impl ContinuityStreamCache {
                 }
             }
         }
+
+        // The forward scan reached the end of the mr sidecar: `last_seq_seen` is its last frame.
+        let full_head_seq =
+            full_head.map(|head| head_seq_seen_by_messages_runs_v1(head, Some(last_seq_seen)));
+        let head_seq = full_head_seq.or(mr_head_seq).unwrap_or(anchor_seq);
 
         let from_seq = match next_message_seq {
             Some(seq) => seq.saturating_sub(1).max(anchor_seq),
